@@ -277,6 +277,13 @@ impl<'a, D: DependencyProvider> Encoder<'a, D> {
             .or_default()
             .push((requirement, clause_id));
 
+        // With all candidates currently false the clause only conflicts with the partial
+        // solution if its solvable is actually installed. For a solvable that was encoded
+        // ahead of being selected it merely means that the solvable cannot be installed
+        // right now, which propagation finds out by itself if it ever gets selected.
+        let conflict = conflict
+            && self.state.decision_tracker.assigned_value(variable) == Some(true);
+
         if conflict {
             self.conflicting_clauses.push(clause_id);
         } else if no_candidates {
@@ -369,8 +376,9 @@ impl<'a, D: DependencyProvider> Encoder<'a, D> {
                 None => self.state.negative_assertions.push((variable, clause_id)),
             }
 
-            // Mark conflicting clauses
-            if conflict {
+            // Mark conflicting clauses. As for requirements, the clause of a solvable that
+            // was encoded ahead of being selected does not conflict with anything yet.
+            if conflict && self.state.decision_tracker.assigned_value(variable) == Some(true) {
                 #[cfg(feature = "verif-hooks")]
                 super::verif::conflicting(clause_id);
                 self.conflicting_clauses.push(clause_id);
